@@ -136,7 +136,9 @@ func recvScenarioOut(chunks, mix string, short, pendingOut bool) *vsched.Scenari
 		vsched.Go("peer", func() {
 			if pendingOut {
 				// wait until the writer's flush has been handed to the poller (write interest registered)
-				vsched.WaitCond("output-stuck", func() bool { return outStuck && netpoll.VerifState(c).OutputLen > 0 && vsyscall.L().HasWriteInterest(a) })
+				vsched.WaitCond("output-stuck", func() bool {
+					return outStuck && netpoll.VerifState(c).OutputLen > 0 && vsyscall.L().HasWriteInterest(a)
+				})
 			}
 			off := 0
 			for _, s := range strings.Split(chunks, "-") {
